@@ -513,6 +513,7 @@ def check_case(sess, case):
             for kind, clause, detail in _judge(op, g[1], D, var["kcont"], nulls):
                 if same_as_ref and (op, kind) in ref_bad: continue
                 if differs and kind in ("value", "element"): continue          # already reported as a difference to the reference container
+                if var["vcont"] == "np-float" and kind == "dtype": continue      # the float64 stand-in of integer / bool data with nulls has no integer dtype to keep
                 F.append(((op, kind), "post", fn, f"{what} {clause}", detail, op))
         return F
 
